@@ -277,6 +277,8 @@ type Set struct {
 	IDs       [][16]byte
 	SetID     [16]byte
 	MainBody  []byte
+	NRFiles   []InFile // non-recovery set (sorted by file id); empty for ordinary sets
+	NRIDs     [][16]byte
 }
 
 // NewSet computes ids, sorts the files by id and derives the set id.
@@ -304,6 +306,49 @@ func NewSet(files []InFile, sliceSize int) *Set {
 	s.MainBody = body
 	s.SetID = md5.Sum(body)
 	return s
+}
+
+// WithNonRecovery returns a copy of the set whose main packet also lists the given files in the NON-recovery set
+// (their checksums are recorded, they are not protected): the main packet body, and with it the recovery-set id,
+// change; the recovery-set files and their slices do not.
+func (s *Set) WithNonRecovery(nr []InFile) *Set {
+	t := &Set{SliceSize: s.SliceSize, Files: s.Files, IDs: s.IDs}
+	type fi struct {
+		f  InFile
+		id [16]byte
+	}
+	var fis []fi
+	for _, f := range nr {
+		fis = append(fis, fi{f, FileID(f.Data, f.Name)})
+	}
+	sort.Slice(fis, func(i, j int) bool { return IDLess(fis[i].id, fis[j].id) })
+	for _, x := range fis {
+		t.NRFiles = append(t.NRFiles, x.f)
+		t.NRIDs = append(t.NRIDs, x.id)
+	}
+	body := make([]byte, 12)
+	binary.LittleEndian.PutUint64(body, uint64(s.SliceSize))
+	binary.LittleEndian.PutUint32(body[8:], uint32(len(t.IDs)))
+	for _, id := range t.IDs {
+		body = append(body, id[:]...)
+	}
+	for _, id := range t.NRIDs {
+		body = append(body, id[:]...)
+	}
+	t.MainBody = body
+	t.SetID = md5.Sum(body)
+	return t
+}
+
+// NRFileDescPacket / NRIFSCPacket: the packets of non-recovery file i.
+func (s *Set) NRFileDescPacket(i int) []byte {
+	u := &Set{SliceSize: s.SliceSize, Files: s.NRFiles, IDs: s.NRIDs, SetID: s.SetID}
+	return u.FileDescPacket(i)
+}
+
+func (s *Set) NRIFSCPacket(i int) []byte {
+	u := &Set{SliceSize: s.SliceSize, Files: s.NRFiles, IDs: s.NRIDs, SetID: s.SetID}
+	return u.IFSCPacket(i)
 }
 
 // MainPacket returns the framed main packet.
